@@ -179,3 +179,118 @@ Proof.
       apply inside_covers; unfold inside, ple; cbn; lia).
   - do 4 eexists. split; [vm_compute; reflexivity|vm_compute; split; reflexivity].
 Qed.
+
+(* ---- the CACHING reader on any well-formed file, every query history -------------------------
+   Composition of C10_reads_emit with the generic history theorems C03_history (bigWig cache machine,
+   Model/CachedRead.v) and C04_history / C04_history_from (bigBed, Model/BBIReadBed.v).  For every
+   layout and content as above: every finite sequence of interval / per-base / zoom queries put to ONE
+   caching reader that starts with an empty cache -- index nodes and INFLATED blocks are memoised, the
+   block map is cleared when it holds CACHE_LIMIT entries -- and every second sequence put to a reader
+   reopened from it afterwards (both maps cloned) returns, query by query, what the CONTENT says.
+   [ca_spec] only renames the machine's three answer constructors to the specification's (injective).
+   The cache machine takes the byte order from the header, so big-endian files are covered.  The
+   chromosome table and the summary are answered from [info] / the header without touching the cache
+   (C10_reads_emit). *)
+From BT Require Import Model.CachedRead Model.BigBedWrite Model.BBIReadBed Model.CachedBed_C10
+  Proofs.CachedReadInv Proofs.C10Cached.
+From BT Require Proofs.BedCached.
+
+Theorem C10_cached_reads_emit : forall (cmp infl : list N -> list N) (L : layout) (X : content),
+  (forall b, infl (cmp b) = b) -> wf_b cmp L X = true -> x_bigwig X = true ->
+  exists i, read_info (emit cmp L X) = Ok i /\
+    forall qs1 qs2,
+      map ca_spec (fst (qrun infl (emit cmp L X) i cache0 qs1)) = map (fun q => spec_answer X (cq_spec q)) qs1
+      /\ map ca_spec (fst (qrun infl (emit cmp L X) i (c_reopen (snd (qrun infl (emit cmp L X) i cache0 qs1))) qs2))
+         = map (fun q => spec_answer X (cq_spec q)) qs2.
+Proof.
+  intros cmp infl L X Hinfl Hwf Hb. exists (exp_info cmp L X). exact (cached_reads_emit cmp infl Hinfl L X Hwf Hb).
+Qed.
+Print Assumptions C10_cached_reads_emit.
+
+(* ... from ANY cache whose entries are faithful copies (the invariant of C03), which stays so *)
+Theorem C10_cached_reads_emit_from : forall (cmp infl : list N -> list N) (L : layout) (X : content),
+  (forall b, infl (cmp b) = b) -> wf_b cmp L X = true -> x_bigwig X = true ->
+  exists i, read_info (emit cmp L X) = Ok i /\
+    forall qs c, CachedReadInv.cache_ok infl (emit cmp L X) i c ->
+      map ca_spec (fst (qrun infl (emit cmp L X) i c qs)) = map (fun q => spec_answer X (cq_spec q)) qs
+      /\ CachedReadInv.cache_ok infl (emit cmp L X) i (snd (qrun infl (emit cmp L X) i c qs)).
+Proof.
+  intros cmp infl L X Hinfl Hwf Hb. exists (exp_info cmp L X).
+  split; [exact (proj1 (reads_emit cmp infl Hinfl L X Hwf))|]. exact (cached_emit_from cmp infl Hinfl L X Hwf Hb).
+Qed.
+Print Assumptions C10_cached_reads_emit_from.
+
+(* bigBed.  [bb_qrun] (Model/CachedBed_C10.v) is the caching reader as a machine over get_interval
+   (C04's c_bb_interval) and get_zoom_interval (bigBed error mapping) sharing one cache.  C04's reader
+   returns [entry] records, the specification [bed] records: [spec_banswer] renames them ([b2e]) and is
+   [Some] exactly on the two answer kinds a bigBed range query has.  Third conjunct: C04's own
+   interval-only history function [c_bb_history], from any faithful cache (C04_history_from). *)
+Theorem C10_cached_reads_emit_bed : forall (cmp infl : list N -> list N) (L : layout) (X : content),
+  (forall b, infl (cmp b) = b) -> wf_b cmp L X = true -> x_bigwig X = false ->
+  exists i, read_info (emit cmp L X) = Ok i /\
+    (forall qs1 qs2,
+      map Some (fst (bb_qrun infl (emit cmp L X) i cache0 qs1)) = map (fun q => spec_banswer (spec_answer X (bq_spec q))) qs1
+      /\ map Some (fst (bb_qrun infl (emit cmp L X) i (c_reopen (snd (bb_qrun infl (emit cmp L X) i cache0 qs1))) qs2))
+         = map (fun q => spec_banswer (spec_answer X (bq_spec q))) qs2)
+    /\ (forall qs c, BedCached.cache_ok infl (emit cmp L X) i c ->
+          c_bb_history infl (emit cmp L X) i c qs
+          = map (fun q => rmap (map b2e)
+                            (do id <- spec_chrom X (fst (fst q));
+                             Ok (filter (fun b => (snd (fst q) <=? b_end b) && (b_start b <=? snd q)) (beds_of X id)))) qs).
+Proof.
+  intros cmp infl L X Hinfl Hwf Hb. exists (exp_info cmp L X). exact (cached_reads_emit_bed cmp infl Hinfl L X Hwf Hb).
+Qed.
+Print Assumptions C10_cached_reads_emit_bed.
+
+(* Non-vacuity.  The big-endian example file above through the caching reader: a history with a
+   repeated query and an unknown chromosome; afterwards the cache holds 5 index nodes and 4 blocks;
+   a reader reopened from it answers from the copies. *)
+Definition ex_c1 : name := [99; 104; 114; 49].
+Definition ex_c2 : name := [99; 104; 114; 50].
+Definition ex_hist : list CachedRead.query :=
+  [CachedRead.QInterval ex_c1 15 101; CachedRead.QValues ex_c2 4 7; CachedRead.QZoom ex_c1 0 25 10;
+   CachedRead.QInterval ex_c1 15 101; CachedRead.QInterval [120] 0 1].
+Example C10_cached_example :
+  x_bigwig ex_X = true /\
+  exists i, read_info ex_bytes = Ok i /\
+    (let '(ans, c) := qrun idc ex_bytes i cache0 ex_hist in
+     nth_error ans 0 = Some (AInterval (Ok [mkv 15 20 1065353216; mkv 20 30 1073741824; mkv 100 101 1077936128]))
+     /\ nth_error ans 1 = Some (AValues (Ok [None; Some 1084227584; Some 1084227584]))
+     /\ nth_error ans 3 = nth_error ans 0 /\ nth_error ans 4 = Some (AInterval (Err R_NOCHROM))
+     /\ length (c_nodes c) = 5%nat /\ length (c_blocks c) = 4%nat
+     /\ fst (qrun idc ex_bytes i (c_reopen c) [CachedRead.QValues ex_c2 4 7])
+        = [AValues (Ok [None; Some 1084227584; Some 1084227584])]).
+Proof.
+  split; [reflexivity|].
+  destruct (read_info ex_bytes) as [i| | |] eqn:E; [|vm_compute in E; discriminate..].
+  exists i. split; [reflexivity|]. vm_compute in E. injection E as <-. vm_compute. repeat split; reflexivity.
+Qed.
+
+(* a bigBed with the same layout (big-endian, out-of-order two-level trees): the first entry of the
+   first block reaches far right, so [500,600] is answered by it alone *)
+Definition mkb (s e : N) (r : list N) : bed := {| b_start := s; b_end := e; b_rest := r |}.
+Definition ex_Xb : content :=
+  {| x_bigwig := false; x_chroms := x_chroms ex_X; x_vals := [];
+     x_beds := [ (0, mkb 0 1000 []); (0, mkb 10 20 [120]); (0, mkb 12 13 []); (0, mkb 700 710 [97; 9; 98]); (1, mkb 5 9 [122]) ];
+     x_summary := x_summary ex_X; x_zooms := x_zooms ex_X; x_field_count := 4; x_defined_fields := 3 |}.
+Definition ex_bbytes : list N := Eval vm_compute in emit idc ex_L ex_Xb.
+Definition ex_bhist : list bquery :=
+  [BQInterval ex_c1 500 600; BQZoom ex_c1 0 25 10; BQInterval ex_c1 11 12; BQInterval ex_c2 0 100;
+   BQInterval [120] 0 1; BQZoom ex_c2 0 25 7; BQInterval ex_c1 500 600].
+Example C10_cached_example_bed :
+  wf_b idc ex_L ex_Xb = true /\ x_bigwig ex_Xb = false /\ length ex_bbytes = 792%nat /\
+  exists i, read_info ex_bbytes = Ok i /\
+    (let '(ans, c) := bb_qrun idc ex_bbytes i cache0 ex_bhist in
+     nth_error ans 0 = Some (BAInterval (Ok [b2e (mkb 0 1000 [])]))
+     /\ (exists z1 z2, nth_error ans 1 = Some (BAZoom (Ok [z1; z2])))
+     /\ nth_error ans 2 = Some (BAInterval (Ok (map b2e [mkb 0 1000 []; mkb 10 20 [120]; mkb 12 13 []])))
+     /\ nth_error ans 3 = Some (BAInterval (Ok [b2e (mkb 5 9 [122])]))
+     /\ nth_error ans 4 = Some (BAInterval (Err R_NOCHROM)) /\ nth_error ans 5 = Some (BAZoom (Err R_NOZOOM))
+     /\ nth_error ans 6 = nth_error ans 0
+     /\ fst (bb_qrun idc ex_bbytes i (c_reopen c) [BQInterval ex_c1 500 600]) = [BAInterval (Ok [b2e (mkb 0 1000 [])])]).
+Proof.
+  split; [vm_compute; reflexivity|]. split; [reflexivity|]. split; [vm_compute; reflexivity|].
+  destruct (read_info ex_bbytes) as [i| | |] eqn:E; [|vm_compute in E; discriminate..].
+  exists i. split; [reflexivity|]. vm_compute in E. injection E as <-. vm_compute.
+  split; [reflexivity|]. split; [do 2 eexists; reflexivity|]. repeat split; reflexivity.
+Qed.
